@@ -192,7 +192,7 @@ func (c c15Case) String() string {
 
 var c15RecvMutations = []string{"nothing", "garbage-control", "garbage-data", "unknown-type", "second-header", "dup-filebegin", "fileend-unknown", "chunk-unknown-file",
 	"chunk-len-0", "chunk-len-big", "chunk-index-big", "datastreams-0", "datastreams-65535", "filebegin-chunksize-0", "filebegin-huge-chunksize", "filebegin-size-mismatch",
-	"resume-unknown", "creditbatch-huge", "manifest-len-huge", "bad-crc", "truncated-record", "end-early"}
+	"resume-unknown", "creditbatch-huge", "manifest-len-huge", "bad-crc", "truncated-record", "end-early", "chunk-for-empty-file"}
 var c15SendMutations = []string{"nothing", "garbage-control", "unknown-type", "filedone-unknown", "filedone-dup", "resumeinfo-huge-bitmap", "resumeinfo-short-bitmap", "resumeinfo-wrong-total",
 	"resumeinfo-wrong-id", "creditbatch-huge", "filebegin-from-receiver", "truncated-record", "close-early"}
 
@@ -387,6 +387,19 @@ func c15RunReceiver(c c15Case, dir string) c15Result {
 		w := &vBufStream{}
 		writeControlEnd(w)
 		ctl.Write(w.W.Bytes())
+	case "chunk-for-empty-file":
+		// f2.bin is empty: no honest sender ever sends a frame for it
+		key2 := fileKeyForItem(items[2])
+		if stage <= 5 { // its FileBegin has not been played yet
+			w := &vBufStream{}
+			writeFileBegin(w, FileBegin{RelPath: "f2.bin", FileSize: 0, ChunkSize: chunk, StreamID: key2, HashAlg: 1})
+			ctl.Write(w.W.Bytes())
+		}
+		if c.Arg%2 == 0 {
+			dataStream().Write(frame(key2, uint32(c.Arg>>8)%3, 4, crc32Checksum([]byte("abcd")), []byte("abcd")))
+		} else {
+			dataStream().Write(frame(key2, 0, 0, 0, nil))
+		}
 	}
 	time.Sleep(3 * time.Millisecond)
 	switch c.Close {
@@ -541,13 +554,17 @@ func c15RunSender(c c15Case, dir string) c15Result {
 		w.W.Write(bb[:1+int(c.Arg%uint64(len(bb)-1))])
 	}
 	ctl.Write(w.W.Bytes())
-	time.Sleep(25 * time.Millisecond) // let the sender act on what it was told before the peer goes away
+	// let the sender act on what it was told before the peer goes away; sometimes long enough
+	// for it to have sent everything (its input then ends while it waits for confirmations)
+	time.Sleep([]time.Duration{25, 25, 150, 400}[int(c.Arg>>16)%4] * time.Millisecond)
 	switch c.Close {
 	case "close-conn":
 		b.Close()
+	case "fin-control":
+		ctl.Close() // the receiver ends its input on the control stream; connection and data streams stay open and drained
 	default:
 		ctl.Close()
-		b.Close() // a receiver that goes away closes its connection; the streams alone would leave the sender's writes pending
+		b.Close() // a receiver that goes away closes its connection
 	}
 	closedAt := time.Now()
 	select {
